@@ -8,13 +8,14 @@
    of the four strategies of the real Reasoner; a run returns Some (facts in the store afterwards, returned
    new facts) or None when the explicit fuel is exhausted (excluded by C05_terminates).
    [safe P] : every rule has at least one premise and its conclusion / filter / negated-atom variables
-   occur in a premise.  The naive, semi-naive and parallel models never read the negated atoms, and
+   occur in a premise.  [known_C05_varcmp P = false] : no filter compares two variables with an order operator
+   (the code lets such a filter pass, the Spec compares the numeric values: C05_varcmp_refuted).  The naive, semi-naive and parallel models never read the negated atoms, and
    [derives] does not either: for programs with negated atoms the theorems below therefore speak about
    the program with the negated atoms erased, which is NOT the stratified model - see
    C05_negation_ignored_refuted. *)
 Require Import KV.Datalog.Syntax KV.Datalog.LeastModel KV.Datalog.Stratified KV.Datalog.HashJoin KV.Datalog.NestedJoin KV.Datalog.Strategies KV.Datalog.VarKeys KV.Datalog.Classes.
 Require Import KV.Datalog.BasicLemmas KV.Datalog.LeastModelProofs KV.Datalog.StratifiedProofs KV.Datalog.HashJoinProofs KV.Datalog.JoinSemantics.
-Require Import KV.Datalog.RoundProofs KV.Datalog.DriverProofs KV.Datalog.MainProofs KV.Datalog.ParallelProofs KV.Datalog.ProvProofs KV.Datalog.NegProofs KV.Datalog.TerminationProofs KV.Datalog.VarKeysProofs.
+Require Import KV.Datalog.RoundProofs KV.Datalog.DriverProofs KV.Datalog.MainProofs KV.Datalog.ParallelProofs KV.Datalog.ProvProofs KV.Datalog.NegProofs KV.Datalog.TerminationProofs KV.Datalog.VarKeysProofs KV.Datalog.SpellingProofs.
 Import String.StringSyntax.
 
 (* (0) The executable Spec used as oracle by the correspondence check is the inductive definition. *)
@@ -304,6 +305,19 @@ Proof.
   rewrite (vnaive_run_eq (vk_of tbl) P (no_synthetic_names_spec tbl P HN)) in H. apply (naive_correct nv P F HS HV fuel all new H).
 Qed.
 Print Assumptions C05_naive_spelled.
+
+(* The keys of the variant are the strings of the code: the key of a variable renders back to its spelling
+   ([kstr]: KV x -> spelling of x, KS c -> "__const_subj_<c>", KO c -> "__const_obj_<c>"), and on the keys a program
+   without synthetic names uses, string equality is key equality provided distinct variables are spelled differently. *)
+Theorem C05_keys_are_the_code_strings :
+  forall (tbl : names),
+    (forall x, kstr tbl (vk_of tbl x) = spelling tbl x) /\
+    (forall k k',
+        (forall x, k = KV x -> vk_of tbl x = KV x) -> (forall x, k' = KV x -> vk_of tbl x = KV x) ->
+        (forall x y, k = KV x -> k' = KV y -> spelling tbl x = spelling tbl y -> x = y) ->
+        kstr tbl k = kstr tbl k' -> k = k').
+Proof. intros tbl. split; [apply kstr_vk_of | apply kstr_inj]. Qed.
+Print Assumptions C05_keys_are_the_code_strings.
 
 (* Without the hypothesis the statement is false.  Witness (corpus/C05/synthetic-var-capture.json, reproduced on the
    real code): facts (b p c) (a q d) with a = id 0, rule (?V p ?X1), (a q ?X2) -> (?V r ?X2) where ?V is spelled
